@@ -288,7 +288,12 @@ impl CodeFormatter {
                 self.push(&size.data).push(" ").fmt(values);
             }
             Token::Definition { tag, id, value } => {
-                self.push(&tag.data).push(" ").fmt(id).push(" ").fmt(value);
+                self.push(&tag.data).push(" ").fmt(id).push(" ");
+                match value.as_deref() {
+                    // (as a block that follows a header, so that a comment in front of the brace is kept)
+                    Some(Token::Config(block)) => self.fmt(block),
+                    _ => self.fmt(value),
+                };
             }
             Token::Error(e) => {
                 self.push(&e.data);
@@ -472,6 +477,25 @@ impl CodeFormatter {
         }
     }
 
+    /// Emits the comments of some trivia, without its whitespace and line breaks
+    fn comments_of(&mut self, trivia: &Option<Box<Located<Vec<Trivia>>>>) -> &mut Self {
+        if let Some(trivia) = trivia {
+            for triv in &trivia.data {
+                match triv {
+                    Trivia::CStyle(comment) => {
+                        self.push_type(ChunkType::Comment, comment);
+                    }
+                    Trivia::CppStyle(comment) => {
+                        // The rest of the line belongs to the comment
+                        self.push_type(ChunkType::Comment, comment).push("\n");
+                    }
+                    Trivia::Whitespace(_) | Trivia::NewLine => (),
+                }
+            }
+        }
+        self
+    }
+
     fn format_block(&mut self, block: &Block) {
         match self.options.braces.position {
             BracePosition::SameLine => self.push(&block.lparen.data).push("\n"),
@@ -619,7 +643,9 @@ basic_format!(&TextEncoding);
 
 impl Formattable for &Block {
     fn format(&self, formatter: &mut CodeFormatter) {
-        formatter.format_block(self);
+        // The block follows a header (a directive, a label). Comments in between are part of the brace's trivia,
+        // which is otherwise dropped: the line breaks around the brace are the formatter's to decide.
+        formatter.comments_of(&self.lparen.trivia).format_block(self);
     }
 }
 
@@ -728,6 +754,10 @@ impl Formattable for &Vec<ArgItem<Identifier>> {
 impl Formattable for &Vec<ArgItem<SpecificImportArg>> {
     fn format(&self, formatter: &mut CodeFormatter) {
         for (path, comma) in *self {
+            // (a comment in front of the name)
+            if let Some(t) = path.trivia.as_ref() {
+                formatter.fmt(&t.data);
+            }
             formatter
                 .fmt(&path.data.path)
                 .spc_if_next()
